@@ -491,7 +491,7 @@ def _erk_roles(model: Model, R: RuleResult, Z: RuleResult, I: RuleResult):
     # the grid is read only at i and i+1
     idxs = set()
     for name, (base, idx) in fr.atoms.items():
-        if base == "t" and idx:
+        if base == "t" and idx and "$probe" not in repr(idx[0]):     # ($probe: scratch symbol of the interpreter's equality test)
             idxs.add(repr(idx[0]))
     if idxs <= {"$0", "1 + $0"}:
         I.ok(fi.fq, "the time grid is read only at the current interval's end points t[i], t[i+1]: %s" % sorted(idxs))
